@@ -210,6 +210,7 @@ type World struct {
 	log              *sim.Logger
 	srv              *turn.Server
 	srvSock          *sim.UDPSock
+	splitNext        int // the next stream write goes out in two segments, cut here
 	srvAddr          *net.UDPAddr
 	tcpLis           *sim.Listener
 	gen              *simGen
@@ -488,11 +489,19 @@ func (w *World) libAlloc(c *Client) *allocation.Allocation {
 func (w *World) send(c *Client, raw []byte) {
 	if c.Stream {
 		if !c.Dead {
+			if cut := w.splitNext; cut > 0 && cut < len(raw) {
+				// two segments: the server reads the first before the second exists
+				_, _ = c.Conn.Write(raw[:cut])
+				synctest.Wait()
+				raw = raw[cut:]
+			}
 			_, _ = c.Conn.Write(raw)
 		}
+		w.splitNext = 0
 
 		return
 	}
+	w.splitNext = 0
 	_, _ = c.Sock.WriteTo(raw, w.srvFor(c.Sock))
 }
 
